@@ -371,6 +371,15 @@ def bounded_run_case(K=3, kmax=1, coast=True):
                             "grade": {"idx_front": 0, "idx_back": 0}, "curve": {"idx_front": 0, "idx_back": 0}})
     recv = {"train_id": "", "origs": [], "dests": [], "loco_con": con, "state": st, "train_res": res, "path_tpc": tpc,
             "braking_points": {"points": [], "idx_curr": 0}, "fric_brake": tc.fric_brake_tmpl(), "save_interval": None, "simulation_days": None, "scenario_year": None}
+    concrete = dict(fb_force_max=1000, ts_length=100, L=10000, dl_force_max=1000000, fb_ramp_up_coeff=0.6)  # what the claim does not depend on is concrete: keeps every step piecewise linear
+    recv["fric_brake"]["force_max"] = concrete["fb_force_max"]
+    recv["fric_brake"]["ramp_up_coeff"] = concrete["fb_ramp_up_coeff"]
+    recv["fric_brake"]["state"]["force"] = 0
+    recv["loco_con"]["loco_vec"][0]["force_max"] = concrete["dl_force_max"]
+    tpc["train_params"]["length"] = concrete["ts_length"]
+    st["length"] = concrete["ts_length"]
+    for d_ in (tpc["link_points"][1], flat[1]):
+        d_["offset"] = concrete["L"]
     if coast:
         # a coasting train (no traction available): the controller can only brake, which is all this check is about, and the step stays linear
         recv["loco_con"]["state"]["pwr_out_max"] = 0
@@ -379,23 +388,25 @@ def bounded_run_case(K=3, kmax=1, coast=True):
         recv["state"]["pwr_whl_out"] = 0
 
     def assume(S):
-        a = S["fb_force_max"] / MASS * DT
-        return [("brake force > 0", S["fb_force_max"] > 0), ("train length > 0", S["ts_length"] > 0), ("path longer than the train", S["L"] > S["ts_length"]),
-                (f"0 < posted limit <= {kmax} velocity steps (bounds the curve length)", z3.And(S["sl0"] > 0, S["sl0"] <= kmax * a)),
+        a = concrete["fb_force_max"] / MASS * DT
+        Lc = concrete["L"]
+        return [(f"0 < posted limit <= {kmax} velocity steps of {a} m/s (bounds the curve length)", z3.And(S["sl0"] > 0, S["sl0"] <= kmax * a)),
                 ("the train cruises at the posted limit", S["ts_speed"] == S["sl0"]),
                 ("the train starts between three and two steps of travel before the end of the path (every phase of the time-step grid relative to the braking curve)",
-                 z3.And(S["ts_offset"] >= S["ts_length"], S["L"] - S["ts_offset"] >= 2 * DT * S["sl0"], S["L"] - S["ts_offset"] < 3 * DT * S["sl0"])),
-                ("friction brake released", z3.And(S["fb_s_force"] == 0, S["fb_ramp_up_coeff"] >= 0)), ("dummy unit: force_max > 0", S["dl_force_max"] > 0)]
+                 z3.And(Lc - S["ts_offset"] >= 2 * DT * S["sl0"], Lc - S["ts_offset"] < 3 * DT * S["sl0"]))]
 
     claims = [
         Claim("speed never negative", lambda c: XLE(0, c.post["state.speed"]), when="ok", role="run_speed_nonneg"),
         Claim("speed never above the posted limit", lambda c: LE(c.post["state.speed"], c.S["sl0"]), when="ok", role="run_speed_le_posted"),
         Claim("speed never above the limit in force", lambda c: LE(c.post["state.speed"], c.post["state.speed_limit"]), when="ok", role="run_speed_le_limit_in_force"),
-        Claim("front never beyond the end of the path", lambda c: LE(c.post["state.offset"], c.S["L"]), when="ok", role="run_within_path"),
+        Claim("front never beyond the end of the path", lambda c: LE(c.post["state.offset"], concrete["L"]), when="ok", role="run_within_path"),
         Claim("the overspeed assert never fires (no panic)", None, when="nopanic", role="run_no_panic"),
     ]
-    calls = [Call("SpeedLimitTrainSim::recalc_braking_points", [])] + [Call("SpeedLimitTrainSim::solve_required_pwr", []) for _ in range(K)]
+    calls = [Call("SpeedLimitTrainSim::recalc_braking_points", [])]
+    for _ in range(K):
+        # what solve_step does around the controller as far as braking is concerned: refresh the brake force available in this step
+        calls += [Call("FricBrake::set_cur_force_max_out", [("si::Time", DT)], recv_path="fric_brake"), Call("SpeedLimitTrainSim::solve_required_pwr", [])]
     return Case(f"bounded_run_K{K}_k{kmax}", "C03", "SpeedLimitTrainSim", recv, calls, assume, claims,
-                bounds={"steps": K, "posted sections": 1, "curve length": f"posted limit <= {kmax} velocity steps", "dt": f"{DT} s (concrete)", "train mass": f"{MASS} kg (concrete)", "track": "level, no resistance",
+                bounds={"steps": K, "posted sections": 1, "curve length": f"posted limit <= {kmax} velocity steps", "dt": f"{DT} s (concrete)", "train mass": f"{MASS} kg (concrete)", "track": "level, no resistance, 10 km", "brake force": "1000 N (1 m/s per step)", "train length": "100 m",
                         "traction": "none (coasting train): only the braking side of the controller is exercised", "start": "cruising at the posted limit, symbolic position two to three steps of travel before the end of the path (all phases)"},
                 expect_ok=True, max_paths=60000, loop_bound=14, timeout_ms=90000, check_side=False)
